@@ -20,6 +20,7 @@ import (
 	"encoding/base64"
 	"fmt"
 	"reflect"
+	"strconv"
 )
 
 // NewValueReflect creates a Value backed by an "interface{}" type,
@@ -254,6 +255,13 @@ func (r valueReflect) AsInt() int64 {
 
 func (r valueReflect) AsFloat() float64 {
 	if r.IsFloat() {
+		if r.Value.Kind() == reflect.Float32 {
+			// a float32 stands for the shortest decimal that identifies it, which is what
+			// encoding/json writes, not for its exact binary expansion
+			if f, err := strconv.ParseFloat(strconv.FormatFloat(r.Value.Float(), 'g', -1, 32), 64); err == nil {
+				return f
+			}
+		}
 		return r.Value.Float()
 	}
 	panic("value is not a float")
